@@ -17,7 +17,7 @@ R  every root index 1..p-1 of every prime length p = 23..1193 (the base lengths
    the numerology can ask for, passed explicitly as Nzc so that the sweep does
    not depend on the prime table): amplitude, autocorrelation and spectrum
    (FFT based here; the four roots of Z are also checked by direct sums).
-   Quick tier: every root for p <= 500, every 8th root (+ the four) above.
+   Quick tier: every root for p <= 300, every 16th root (+ the four) above.
 X  cyclic extension with explicit Nzc: sizes Nzc+{0,1,Nzc-1,Nzc,Nzc+1,Nzc+3,
    2Nzc,2Nzc+5} and get_extended_ZF on position-distinguishable arrays of
    lengths 1..6 x every size n..4n+1.
@@ -565,21 +565,48 @@ def diagnose(est, H, taps, K, nbins):
     return "other"
 
 
-def eval_est(chk, case, cache):
-    """one estimator configuration, one interferer set"""
-    from pyphysim.reference_signals.channel_estimation import (CazacBasedChannelEstimator,
-                                                               CazacBasedWithOCCChannelEstimator)
+EPS32 = 2.0 ** -23
+EST_LAYOUTS = ("c64", "fortran", "strided", "rowstrided", "negstride", "readonly", "c64_fortran")
+
+
+def apply_layout(a, layout):
+    """same numbers (rounded to single precision for c64), different dtype / memory layout / flags"""
+    if layout == "c":
+        return np.ascontiguousarray(a)
+    if layout == "c64":
+        return np.ascontiguousarray(a.astype(np.complex64 if np.iscomplexobj(a) else np.float32))
+    if layout == "c64_fortran":
+        return np.asfortranarray(a.astype(np.complex64 if np.iscomplexobj(a) else np.float32))
+    if layout == "fortran":
+        return np.asfortranarray(a)
+    if layout == "strided":
+        big = np.full(a.shape[:-1] + (2 * a.shape[-1],), 7.5, dtype=a.dtype)
+        big[..., ::2] = a
+        return big[..., ::2]
+    if layout == "rowstrided":
+        big = np.full((2 * a.shape[0],) + a.shape[1:], 7.5, dtype=a.dtype)
+        big[::2] = a
+        return big[::2]
+    if layout == "negstride":
+        return np.ascontiguousarray(a[..., ::-1])[..., ::-1]
+    if layout == "readonly":
+        b = np.array(a, copy=True)
+        b.flags.writeable = False
+        return b
+    raise Broken("unknown layout %r" % (layout,))
+
+
+def build_obs(case, cache):
+    """noise-free observation of one configuration, built from the library's own sequences"""
     N, kind, norm, shift = case["N"], case["kind"], case["normalize"], case["shift"]
-    L, K, rx, interf, root = case["L"], case["K"], case["rx"], case["interf"], case["root"]
+    L, rx, interf, root = case["L"], case["rx"], case["interf"], case["root"]
     off_h, off_i, fam = case["off_h"], case["off_i"], case["fam"]
+    gain, gain_i = case.get("gain", 1.0), case.get("gain_i", 1.0)
     skind, D, mult, cc, xd, variant = kind_info(kind)
     occ = variant == "occ"
     Nr = 1 if rx == "1d" else int(rx)
     nbins = mult * N
-    chk.count("eval_estimator_cases")
-
-    # target user: taps, truth, sequence
-    taps = families.generic(fam, (Nr, L), True, offset=off_h, tag=TAG_H)
+    taps = gain * families.generic(fam, (Nr, L), True, offset=off_h, tag=TAG_H)
     H = true_response(taps, nbins)                       # Nr x nbins
     ue = cache.get(skind, N, root, shift, cc, norm)
     seq = np.asarray(ue.seq_array())                     # (N,) or (2, N)
@@ -588,17 +615,18 @@ def eval_est(chk, case, cache):
         Y = seq[None, :, :] * Hp[:, None, :]             # Nr x Nc x N
     else:
         Y = seq[None, :] * Hp                            # Nr x N
+    mag = float(np.sum(np.abs(taps), axis=1).max())
     for idx, (d, L2, cov) in enumerate(interf):
         s2 = (shift + d) % D
         cc2 = cc if (cov == "same" or not occ) else other_cover(cc)
-        taps2 = families.generic(fam + 1 + idx, (Nr, L2), True, offset=off_i, tag=TAG_I)
+        taps2 = gain_i * families.generic(fam + 1 + idx, (Nr, L2), True, offset=off_i, tag=TAG_I)
+        mag = max(mag, float(np.sum(np.abs(taps2), axis=1).max()))
         H2 = true_response(taps2, nbins)[:, ::mult]
         seq2 = np.asarray(cache.get(skind, N, root, s2, cc2, norm).seq_array())
         if occ:
             Y = Y + seq2[None, :, :] * H2[:, None, :]
         else:
             Y = Y + seq2[None, :] * H2
-
     # shape the observation the way the API wants it
     if occ:
         if rx == "1d":
@@ -607,22 +635,67 @@ def eval_est(chk, case, cache):
             obs = Y if xd else Y.reshape(Nr, -1)
     else:
         obs = Y[0] if rx == "1d" else Y
-    obs = np.ascontiguousarray(obs)
-    obs_copy = obs.copy()
     want = H[0] if rx == "1d" else H
+    return dict(obs=np.ascontiguousarray(obs), want=want, H=H, taps=taps, ue=ue, seq=seq, mag=mag,
+                Nr=Nr, nbins=nbins, occ=occ, xd=xd, mult=mult, variant=variant)
 
-    if occ:
-        est_obj = CazacBasedWithOCCChannelEstimator(ue)
-        est = est_obj.estimate_channel_freq_domain(obs, K, extra_dimension=xd)
-    elif kind == "array_comb":
-        est_obj = CazacBasedChannelEstimator(seq, size_multiplier=mult)
-        est = est_obj.estimate_channel_freq_domain(obs, K)
+
+def make_estimator(kind, b):
+    from pyphysim.reference_signals.channel_estimation import (CazacBasedChannelEstimator,
+                                                               CazacBasedWithOCCChannelEstimator)
+    if b["occ"]:
+        return CazacBasedWithOCCChannelEstimator(b["ue"])
+    if kind == "array_comb":
+        return CazacBasedChannelEstimator(b["seq"], size_multiplier=b["mult"])
+    return CazacBasedChannelEstimator(b["ue"], size_multiplier=b["mult"])
+
+
+def run_estimator(est_obj, b, obs, K):
+    if b["occ"]:
+        return np.asarray(est_obj.estimate_channel_freq_domain(obs, K, extra_dimension=b["xd"]))
+    return np.asarray(est_obj.estimate_channel_freq_domain(obs, K))
+
+
+def est_context(case):
+    """name of the non-default context (scale / layout) of a case, or None"""
+    lay = case.get("layout", "c")
+    if lay != "c":
+        return "layout=" + lay
+    g, gi = case.get("gain", 1.0), case.get("gain_i", 1.0)
+    if g != gi:
+        return "interferer_gain_differs"
+    if g != 1.0:
+        return "gain<1" if g < 1 else "gain>1"
+    return None
+
+
+def est_tolerance(case, b):
+    N, interf = case["N"], case["interf"]
+    scale = max(numerics.scale(b["want"]), b["mag"])
+    if case.get("layout", "c").startswith("c64"):
+        # the observation itself is rounded to single precision
+        return 1.0, 64.0 * EPS32 / numerics.EPS * (1 + len(interf)), scale
+    return 2 * math.pi * N * (1 + len(interf)), C_EST, scale
+
+
+def eval_est(chk, case, cache):
+    """one estimator configuration, one interferer set (optionally a gain / a memory layout of the observation)"""
+    N, kind, norm, shift = case["N"], case["kind"], case["normalize"], case["shift"]
+    L, K, rx, interf, root = case["L"], case["K"], case["rx"], case["interf"], case["root"]
+    layout = case.get("layout", "c")
+    ctx = est_context(case)
+    b = build_obs(case, cache)
+    variant, Nr, nbins, H, taps, want = b["variant"], b["Nr"], b["nbins"], b["H"], b["taps"], b["want"]
+    chk.count("eval_estimator_cases")
+    obs = apply_layout(b["obs"], layout)
+    obs_copy = np.array(obs, copy=True)
+    obs_shape, obs_strides = obs.shape, obs.strides
+    est = run_estimator(make_estimator(kind, b), b, obs, K)
+
+    if ctx is None:
+        chk.outcome("estimator_form", (kind, rx, len(interf)))
     else:
-        est_obj = CazacBasedChannelEstimator(ue, size_multiplier=mult)
-        est = est_obj.estimate_channel_freq_domain(obs, K)
-    est = np.asarray(est)
-
-    chk.outcome("estimator_form", (kind, rx, len(interf)))
+        chk.outcome("estimator_context", (ctx, b["variant"], rx))
     if L >= 2 or interf:
         # packed integer key (compact to ship between processes): every component of the parameter tuple
         ik = (len(interf) * 16 + (interf[0][0] if interf else 15)) * 2 + (1 if interf and interf[0][2] == "other" else 0)
@@ -630,33 +703,220 @@ def eval_est(chk, case, cache):
         for v, base in ((EST_KINDS.index(kind), 16), (int(norm), 2), (shift, 16), (L, 64), (K, 512),
                         (0 if rx == "1d" else int(rx), 8), (ik, 256), (root, 2048)):
             key = key * base + v
-        chk.nontriv(-key)        # negative: disjoint from the (positive) keys of part S
-    if not np.array_equal(obs, obs_copy):
-        chk.fail(("cazac_estimator", variant, "input_mutated"), case)
+        if ctx is None:
+            chk.nontriv(-key)        # negative: disjoint from the (positive) keys of part S
+        else:
+            chk.nontriv(("ctx", ctx, case.get("gain", 1.0), -key))
+    if not np.array_equal(obs, obs_copy) or obs.shape != obs_shape or obs.strides != obs_strides:
+        chk.fail(("cazac_estimator", variant, "input_mutated"), case,
+                 observed=(obs.shape, obs.strides), expected=(obs_shape, obs_strides))
     if shape_of(est) != shape_of(want):
         chk.fail(("cazac_estimator", variant, "shape"), case, observed=shape_of(est), expected=shape_of(want))
         return None
-    kappa = 2 * math.pi * N * (1 + len(interf))
-    scale = max(numerics.scale(want), float(np.sum(np.abs(taps), axis=1).max()))
-    if not numerics.close(est, want, kappa, C_EST, scale_=scale):
-        if interf:
-            # is it the interferers?  re-run without them
-            sub = eval_est(Check(PID, LEVEL, ENGINE, RULE, child=True), dict(case, interf=[]), cache)
-            alone_ok = sub is not None and numerics.close(sub, want, kappa, C_EST, scale_=scale)
-        else:
-            alone_ok = False
-        if interf and alone_ok:
-            kinds = sorted(set(("same_shift_other_cover" if d == 0 else "other_shift") for d, _, _ in interf))
-            chk.fail(("cazac_estimator", variant, "changed_by_interferer", "+".join(kinds)), case,
-                     observed="max |est - H| = %.6g" % numerics.err(est, want),
-                     expected="<= %.3g" % (C_EST * numerics.EPS * kappa * scale),
-                     msg="estimate is exact without the interferers and wrong with them")
-        else:
-            chk.fail(("cazac_estimator", variant, "not_exact", diagnose(est.reshape(Nr, -1), H, taps, K, nbins)),
-                     case, observed="max |est - H| = %.6g (max|H| = %.4g)" % (numerics.err(est, want), numerics.scale(want)),
-                     expected="<= %.3g" % (C_EST * numerics.EPS * kappa * scale),
-                     msg="noise-free observation, %d taps, num_taps_to_keep=%d (taps 0..%d kept)" % (L, K, K))
+    kappa, c, scale = est_tolerance(case, b)
+    if numerics.close(est, want, kappa, c, scale_=scale):
+        return est
+    detail = dict(observed="max |est - H| = %.6g (max|H| = %.4g)" % (numerics.err(est, want), numerics.scale(want)),
+                  expected="<= %.3g" % (c * numerics.EPS * kappa * scale))
+    if ctx is not None:
+        # does the same configuration pass at unit gain / plain contiguous complex128 input?
+        base = {k: v for k, v in case.items() if k not in ("gain", "gain_i", "layout")}
+        sub = Check(PID, LEVEL, ENGINE, RULE, child=True)
+        with sub.guard(("x",), base):
+            eval_est(sub, base, cache)
+        if not sub.violations:
+            chk.fail(("cazac_estimator", variant, "wrong_only_for", ctx), case,
+                     msg="the same configuration is exact with unit gain and a contiguous complex128 observation", **detail)
+            return est
+    if interf:
+        # is it the interferers?  re-run without them
+        sub = eval_est(Check(PID, LEVEL, ENGINE, RULE, child=True), dict(case, interf=[]), cache)
+        alone_ok = sub is not None and numerics.close(sub, want, kappa, c, scale_=scale)
+    else:
+        alone_ok = False
+    if interf and alone_ok:
+        kinds = sorted(set(("same_shift_other_cover" if d == 0 else "other_shift") for d, _, _ in interf))
+        chk.fail(("cazac_estimator", variant, "changed_by_interferer", "+".join(kinds)), case,
+                 msg="estimate is exact without the interferers and wrong with them", **detail)
+    else:
+        chk.fail(("cazac_estimator", variant, "not_exact", diagnose(est.reshape(Nr, -1), H, taps, K, nbins)),
+                 case, msg="noise-free observation, %d taps, num_taps_to_keep=%d (taps 0..%d kept)" % (L, K, K), **detail)
     return est
+
+
+# ----------------------------------------------------------------------
+# H: histories on shared objects, aliasing, re-used buffers
+# ----------------------------------------------------------------------
+SEQ_OPS = (("srs", 0, "none", True), ("srs", 0, "none", False), ("srs", 3, "none", True),
+           ("dmrs", 0, "[1,-1]", True), ("dmrs", 5, "[1,1]", False), ("dmrs", 0, "none", True),
+           ("clobber",))
+
+
+def seq_histories(maxlen):
+    for n in range(1, maxlen + 1):
+        for h in itertools.permutations(range(len(SEQ_OPS)), n):
+            if SEQ_OPS[h[0]][0] == "clobber":
+                continue                      # nothing to clobber yet
+            yield list(h)
+
+
+_FRESH = {}
+
+
+def fresh_user_bytes(N, root, op):
+    """the sequence a brand-new RootSequence + user object gives (history free reference)"""
+    from pyphysim.reference_signals.root_sequence import RootSequence
+    key = (N, root, op)
+    v = _FRESH.get(key)
+    if v is None:
+        if len(_FRESH) > 4096:
+            _FRESH.clear()
+        kind, sh, cc, norm = op
+        a = np.asarray(make_user_seq(kind, RootSequence(root_index=root, size=N), sh, cc, norm).seq_array())
+        v = _FRESH[key] = (a.tobytes(), a.shape)
+    return v
+
+
+def eval_seq_history(chk, case):
+    """ONE RootSequence shared by users created in the given order; arrays handed to the caller are
+    clobbered in place by the 'clobber' event; the root and every other object must be unaffected"""
+    from pyphysim.reference_signals.root_sequence import RootSequence
+    N, root, hist = case["N"], case["root"], case["history"]
+    chk.count("eval_shared_root_histories")
+    rs = RootSequence(root_index=root, size=N)
+    root_before = np.array(rs.seq_array(), copy=True)
+    fresh_root = np.asarray(RootSequence(root_index=root, size=N).seq_array())
+    live = []                                  # (op, object, snapshot bytes)
+    shared_cc = {"[1,-1]": np.array([1, -1]), "[1,1]": np.array([1, 1])}
+    cc_snap = {k: v.copy() for k, v in shared_cc.items()}
+    for step, oi in enumerate(hist):
+        op = SEQ_OPS[oi]
+        at = dict(case, step=step)
+        if op[0] == "clobber":
+            for _, ue, _ in live:
+                a = ue.seq_array()
+                if a.flags.writeable:
+                    a[...] = 0.25 + 0.5j       # the caller scribbles over what it was handed
+            live = []
+            chk.outcome("history_event", "clobber")
+        else:
+            kind, sh, cc, norm = op
+            from pyphysim.reference_signals.dmrs import DmrsUeSequence
+            from pyphysim.reference_signals.srs import SrsUeSequence
+            if kind == "srs":
+                ue = SrsUeSequence(rs, sh, normalize=norm)
+            else:
+                ue = DmrsUeSequence(rs, sh, cover_code=None if cc == "none" else shared_cc[cc], normalize=norm)
+            a = np.asarray(ue.seq_array())
+            want_bytes, want_shape = fresh_user_bytes(N, root, op)
+            if a.shape != want_shape or a.tobytes() != want_bytes:
+                chk.fail(("shared_root_history", "user_sequence_depends_on_history"), at,
+                         observed="differs from the sequence of a fresh RootSequence/user pair",
+                         expected="bit-identical", msg="op %r after %r" % (op, [SEQ_OPS[i] for i in hist[:step]]))
+            if np.shares_memory(a, rs.seq_array()):
+                chk.fail(("shared_root_history", "user_sequence_aliases_root"), at, observed="shares memory")
+            live.append((op, ue, a.tobytes()))
+            chk.outcome("history_event", op)
+        # after every event: the root is untouched, earlier users are untouched, cover-code arguments keep their content
+        now = np.asarray(rs.seq_array())
+        if now.shape != root_before.shape or now.tobytes() != root_before.tobytes() or now.tobytes() != fresh_root.tobytes():
+            chk.fail(("shared_root_history", "root_sequence_changed"), at,
+                     observed="max |root_after - root_before| = %.6g" % numerics.err(now, root_before), expected=0,
+                     msg="after %r" % ([SEQ_OPS[i] for i in hist[:step + 1]],))
+            return
+        for op2, ue2, snap in live:
+            if np.asarray(ue2.seq_array()).tobytes() != snap:
+                chk.fail(("shared_root_history", "earlier_user_sequence_changed"), at, observed=op2,
+                         msg="after %r" % ([SEQ_OPS[i] for i in hist[:step + 1]],))
+                return
+        for k, v in shared_cc.items():
+            if not np.array_equal(v, cc_snap[k]):
+                chk.fail(("shared_root_history", "cover_code_argument_changed"), at, observed=v, expected=cc_snap[k])
+                return
+    chk.nontriv(("hseq", N, root, tuple(hist)))
+
+
+EST_EVENTS = 5
+
+
+def est_event(N, D, ei):
+    """(L, K, rx, interferers) of event number ei for a length-N, D-shift estimator"""
+    ok = N % D == 0
+    win = N // D if ok else max(2, N // 8)
+    if ei == 0:
+        return 2 if win >= 2 else 1, 1 if win >= 2 else 0, "1d", []
+    if ei == 1:
+        return win, win - 1, "1d", ([(D - 1, win, "same")] if ok else [])
+    if ei == 2:
+        return 1, 0, 2, []
+    if ei == 3:
+        L = min(3, win)
+        return L, win - 1, 2, ([(1, win, "same"), (D - 1, win, "same")] if ok else [])
+    return 2 if win >= 2 else 1, N - 1, 3, []
+
+
+def eval_est_history(chk, case, cache):
+    """ONE estimator object used for several estimations (different channels, numbers of taps, antennas);
+    the received array is ONE buffer per shape whose content is replaced; returned estimates are clobbered
+    by the caller before the next call"""
+    N, kind, norm, shift, root, hist = case["N"], case["kind"], case["normalize"], case["shift"], case["root"], case["history"]
+    skind, D, mult, cc, xd, variant = kind_info(kind)
+    chk.count("eval_estimator_histories")
+    est_obj = None
+    buffers, kept = {}, []
+    ref_snapshot = None
+    for step, ei in enumerate(hist):
+        L, K, rx, interf = est_event(N, D, ei)
+        ec = {"part": "E", "N": N, "kind": kind, "normalize": norm, "shift": shift, "root": root, "L": L, "K": K,
+              "rx": rx, "interf": [list(t) for t in interf], "fam": (37 * ei + 11 * step + N) % 977,
+              "off_h": case["off_h"], "off_i": case["off_i"]}
+        at = dict(case, step=step)
+        b = build_obs(ec, cache)
+        if est_obj is None:
+            est_obj = make_estimator(kind, b)
+            ref_snapshot = np.array(est_obj.ue_ref_seq, copy=True)
+            ue_snapshot = np.array(b["ue"].seq_array(), copy=True)
+        buf = buffers.get(b["obs"].shape)
+        if buf is None:
+            buf = buffers[b["obs"].shape] = np.empty_like(b["obs"])
+        buf[...] = b["obs"]                      # same array object, new content
+        est = run_estimator(est_obj, b, buf, K)
+        chk.count("eval_estimator_calls_on_reused_object")
+        fresh = run_estimator(make_estimator(kind, b), b, b["obs"].copy(), K)
+        if not np.array_equal(buf, b["obs"]):
+            chk.fail(("cazac_estimator", variant, "history", "input_mutated"), at)
+        if est.shape != fresh.shape or est.tobytes() != fresh.tobytes():
+            chk.fail(("cazac_estimator", variant, "history", "reused_object_differs_from_fresh"), at,
+                     observed="max |est_reused - est_fresh| = %.6g" % numerics.err(est, fresh), expected="bit-identical",
+                     msg="events %r" % (hist[:step + 1],))
+        kappa, c, scale = est_tolerance(ec, b)
+        if shape_of(est) != shape_of(b["want"]) or not numerics.close(est, b["want"], kappa, c, scale_=scale):
+            sub = Check(PID, LEVEL, ENGINE, RULE, child=True)
+            with sub.guard(("x",), ec):
+                eval_est(sub, ec, cache)
+            if not sub.violations:
+                chk.fail(("cazac_estimator", variant, "history", "not_exact_on_reused_object"), at,
+                         observed="max |est - H| = %.6g" % numerics.err(est, b["want"]), msg="events %r" % (hist[:step + 1],))
+            else:
+                for v in sub.violations.values():
+                    chk.fail(tuple(v["sig"]), ec, observed=v["observed"], expected=v["expected"], msg=v["msg"])
+        for j, (arr, snap) in enumerate(kept):
+            if arr.tobytes() != snap:
+                chk.fail(("cazac_estimator", variant, "history", "earlier_result_changed"), at,
+                         msg="estimate returned by call %d changed during call %d" % (j, step))
+        if any(np.shares_memory(est, o) for o in (buf, est_obj.ue_ref_seq)):
+            chk.fail(("cazac_estimator", variant, "history", "result_aliases_input"), at)
+        # the caller scribbles over the previous result, keeps the current one
+        for arr, _ in kept:
+            if arr.flags.writeable:
+                arr[...] = np.nan
+        kept = [(est, est.tobytes())]
+        if np.asarray(est_obj.ue_ref_seq).tobytes() != ref_snapshot.tobytes() or \
+                np.asarray(b["ue"].seq_array()).tobytes() != ue_snapshot.tobytes():
+            chk.fail(("cazac_estimator", variant, "history", "reference_sequence_changed"), at)
+            return
+        chk.outcome("estimator_history_event", (ei, step))
+    chk.nontriv(("hest", N, kind, norm, tuple(hist)))
 
 
 def k_values(L, N, D, with_interf):
@@ -680,7 +940,7 @@ def est_unit(chk, unit, cache):
     occ = variant == "occ"
     off_h, off_i = common.seed_offset(TAG_H), common.seed_offset(TAG_I)
     Lmax = max(1, N // 8)
-    rxs = ["1d", 1, 2, 3, 4] if chk.tier == "thorough" else ["1d", 1, 2, 4]
+    rxs = ["1d", 1, 2, 3, 4] if chk.tier == "thorough" else ["1d", 1, 2]
     isets = interferer_sets(D, N, occ)
     win = N // D if N % D == 0 else None
     for L in range(1, Lmax + 1):
@@ -697,6 +957,65 @@ def est_unit(chk, unit, cache):
                     with chk.guard(("cazac_estimator", variant), case):
                         eval_est(chk, case, cache)
                     chk.outcome("kept_vs_taps", klabel)
+
+
+def est_ctx_unit(chk, unit, cache):
+    """numeric scale 1e-12..1e12 and dtype / layout / flags of the received array"""
+    _, what, N, kind, norm, root = unit
+    skind, D, mult, cc, xd, variant = kind_info(kind)
+    occ = variant == "occ"
+    off_h, off_i = common.seed_offset(TAG_H), common.seed_offset(TAG_I)
+    ok = N % D == 0
+    win = N // D if ok else max(2, N // 8)
+    isets = [[]] + ([[(D - 1, win, "same")], [(1, win, "same"), (D // 2, win, "same"), (D - 1, win, "same")]] if ok else [])
+    if ok and occ:
+        isets.append([(0, win, "other"), (1, win, "same")])
+    if what == "scale":
+        ctxs = [{"gain": g, "gain_i": g} for g in (1e-12, 1e-6, 1e6, 1e12)]
+        ctxs += [{"gain": 1e-3, "gain_i": 1.0}, {"gain": 1.0, "gain_i": 1e-3}, {"gain": 1e9, "gain_i": 1e12}]
+        rxs = ["1d", 2]
+    else:
+        ctxs = [{"layout": l} for l in EST_LAYOUTS]
+        rxs = ["1d", 2, 3]
+    for shift in (0, D - 1):
+        for L in sorted(set((1, min(3, win), win))):
+            for K in sorted(set((L - 1, win - 1))):
+                if K + 1 < L:
+                    continue
+                for ri, rx in enumerate(rxs):
+                    for ii, interf in enumerate(isets):
+                        for ci, ctx in enumerate(ctxs):
+                            if ctx.get("gain") != ctx.get("gain_i") and not interf:
+                                continue
+                            if ctx.get("layout") in ("fortran", "rowstrided", "c64_fortran") and rx == "1d" and not (occ and xd):
+                                continue          # 1-D arrays have no such layout
+                            case = {"part": "E", "N": N, "kind": kind, "normalize": norm, "shift": shift, "root": root,
+                                    "L": L, "K": K, "rx": rx, "interf": [list(t) for t in interf],
+                                    "fam": (N * 131 + shift * 17 + L * 7 + ri * 3 + ii) % 977, "off_h": off_h, "off_i": off_i}
+                            case.update(ctx)
+                            pre = ("cazac_estimator", variant) + ((ctx["layout"],) if "layout" in ctx else ())
+                            with chk.guard(pre, case):
+                                eval_est(chk, case, cache)
+
+
+def est_hist_unit(chk, unit, cache):
+    _, N, kind, norm, root, maxlen = unit
+    skind, D, mult, cc, xd, variant = kind_info(kind)
+    off_h, off_i = common.seed_offset(TAG_H), common.seed_offset(TAG_I)
+    for n in range(1, maxlen + 1):
+        for hist in itertools.product(range(EST_EVENTS), repeat=n):
+            case = {"part": "HE", "N": N, "kind": kind, "normalize": norm, "shift": (3 * len(hist) + hist[0]) % D,
+                    "root": root, "history": list(hist), "off_h": off_h, "off_i": off_i}
+            with chk.guard(("cazac_estimator", variant, "history"), case):
+                eval_est_history(chk, case, cache)
+
+
+def seq_hist_unit(chk, unit):
+    _, N, root, maxlen = unit
+    for hist in seq_histories(maxlen):
+        case = {"part": "HS", "N": N, "root": root, "history": hist}
+        with chk.guard(("shared_root_history",), case):
+            eval_seq_history(chk, case)
 
 
 # ----------------------------------------------------------------------
@@ -726,22 +1045,44 @@ def ls_pilots(case, r=0):
     return families.generic(case["pidx"] + 31 * r, (Nt, Np), True, offset=case["off_s"], tag=TAG_LS_S)
 
 
+LS_LAYOUTS = ("c64", "fortran", "strided", "readonly", "transposed_view")
+
+
+def ls_layout(a, layout):
+    if layout == "transposed_view":
+        return np.ascontiguousarray(np.swapaxes(a, -1, -2)).swapaxes(-1, -2)
+    return apply_layout(a, layout)
+
+
 def eval_ls(chk, case):
     from pyphysim.channel_estimation.estimators import compute_ls_estimation
     Nt, Np, Nr, form = case["Nt"], case["Np"], case["Nr"], case["form"]
+    pgain, hgain, layout = case.get("pgain", 1.0), case.get("hgain", 1.0), case.get("layout", "c")
+    ctx = None
+    if layout != "c":
+        ctx = "layout=" + layout
+    elif pgain != 1.0 or hgain != 1.0:
+        ctx = "pilots*%g,channel*%g" % (pgain, hgain)
+    c64 = layout.startswith("c64")
     R = 1 if form == "2d" else 3
     per = form == "3d_per_realization"
-    pil = [ls_pilots(case, r if per else 0) for r in range(R)]
+    pil = [pgain * ls_pilots(case, r if per else 0) for r in range(R)]
     conds = [families.cond(s) for s in pil]
     kmax = max(conds)
     if not math.isfinite(kmax):
         chk.count("excluded_pilots_rank_deficient")
         return
-    if kmax > LS_COND_BOUND:
+    if kmax > (10.0 if c64 else LS_COND_BOUND):
         chk.count("excluded_pilots_cond_above_bound")
         return
-    Hs = [families.generic(case["hidx"] + r, (Nr, Nt), True, offset=case["off_h"], tag=TAG_LS_H) for r in range(R)]
-    Ys = [Hs[r] @ pil[r] for r in range(R)]
+    Hs = [hgain * families.generic(case["hidx"] + r, (Nr, Nt), True, offset=case["off_h"], tag=TAG_LS_H) for r in range(R)]
+    if c64:
+        # single precision inputs: the reference channel is the one the rounded numbers encode
+        pil = [p_.astype(np.complex64) for p_ in pil]
+        Hs = [h_.astype(np.complex64).astype(complex) for h_ in Hs]
+        Ys = [(Hs[r] @ pil[r].astype(complex)) for r in range(R)]
+    else:
+        Ys = [Hs[r] @ pil[r] for r in range(R)]
     if form == "2d":
         Y, s, want = Ys[0], pil[0], Hs[0]
     elif form == "3d_shared_pilots":
@@ -750,23 +1091,59 @@ def eval_ls(chk, case):
         Y, s, want = np.stack(Ys), np.stack(pil), np.stack(Hs)
     if case["pfam"] == "generic_real":
         s = np.ascontiguousarray(s.real) if np.iscomplexobj(s) else s
-    Yc, sc = Y.copy(), s.copy()
+    if layout != "c":
+        Y, s = ls_layout(Y, layout), ls_layout(s, layout)
+    Yc, sc = np.array(Y, copy=True), np.array(s, copy=True)
     got = np.asarray(compute_ls_estimation(Y, s))
     chk.count("eval_ls_cases")
-    chk.outcome("ls_form", (form, Nt, Np, case["pfam"]))
+    if ctx is None:
+        chk.outcome("ls_form", (form, Nt, Np, case["pfam"]))
+    else:
+        chk.outcome("ls_context", (ctx, form))
     if Nt >= 2 or Np >= 2:
-        chk.nontriv(("ls", form[:4] + case["pfam"][-4:], ((Nt * 8 + Np) * 8 + Nr) * 2 ** 20 + case["pidx"]))
+        chk.nontriv(("ls", form[:4] + case["pfam"][-4:] + (ctx or ""), ((Nt * 8 + Np) * 8 + Nr) * 2 ** 20 + case["pidx"]))
     pk = "real_pilots" if case["pfam"] == "generic_real" else "complex_pilots"
     if not (np.array_equal(Y, Yc) and np.array_equal(s, sc)):
         chk.fail(("ls_estimation", form, "input_mutated"), case)
     if shape_of(got) != shape_of(want):
         chk.fail(("ls_estimation", form, "shape", pk), case, observed=shape_of(got), expected=shape_of(want))
         return
-    if not numerics.close(got, want, kmax * kmax, C_LS):
-        chk.fail(("ls_estimation", form, "not_exact", pk), case,
-                 observed="max |est - H| = %.6g" % numerics.err(got, want),
-                 expected="<= %.3g (cond(s) = %.3g)" % (C_LS * numerics.EPS * kmax * kmax * numerics.scale(got, want), kmax),
+    kappa, c = kmax * kmax, C_LS
+    if c64:
+        c = 64.0 * EPS32 / numerics.EPS
+    if not numerics.close(got, want, kappa, c):
+        sig = ("ls_estimation", form, "not_exact", pk)
+        if ctx is not None:
+            base = {k: v for k, v in case.items() if k not in ("pgain", "hgain", "layout")}
+            sub = Check(PID, LEVEL, ENGINE, RULE, child=True)
+            with sub.guard(("x",), base):
+                eval_ls(sub, base)
+            if not sub.violations:
+                sig = ("ls_estimation", form, "wrong_only_for",
+                       ctx if layout != "c" else ("pilots_small" if pgain < 1 else "pilots_large" if pgain > 1 else "channel_scaled"))
+        chk.fail(sig, case,
+                 observed="max |est - H| = %.6g (max|H| = %.4g)" % (numerics.err(got, want), numerics.scale(want)),
+                 expected="<= %.3g (cond(s) = %.3g)" % (c * numerics.EPS * kappa * numerics.scale(got, want), kmax),
                  msg="Y = H s noise free, Nt=%d Np=%d Nr=%d" % (Nt, Np, Nr))
+
+
+def ls_ctx_unit(chk, unit):
+    """numeric scale (relative tolerances) and dtype / layout / flags of the LS inputs"""
+    _, shape, form, S = unit
+    Nt, Np = shape
+    off_s, off_h = common.seed_offset(TAG_LS_S), common.seed_offset(TAG_LS_H)
+    ctxs = [{"pgain": pg, "hgain": hg} for pg in (1e-6, 1e6) for hg in (1e-12, 1.0, 1e12)]
+    ctxs += [{"pgain": 1.0, "hgain": hg} for hg in (1e-12, 1e12)]
+    ctxs += [{"layout": l} for l in LS_LAYOUTS]
+    for pidx in range(S):
+        for Nr in (1, 2, 3, 4):
+            for ctx in ctxs:
+                case = {"part": "L", "pfam": "generic", "pidx": pidx, "Nt": Nt, "Np": Np, "Nr": Nr, "form": form,
+                        "hidx": (pidx * 5 + Nr) % 911, "off_s": off_s, "off_h": off_h}
+                case.update(ctx)
+                pre = ("ls_estimation", form) + ((ctx["layout"],) if "layout" in ctx else ())
+                with chk.guard(pre, case):
+                    eval_ls(chk, case)
 
 
 def ls_unit(chk, unit):
@@ -786,7 +1163,11 @@ def ls_unit(chk, unit):
 # enumeration
 # ----------------------------------------------------------------------
 def est_lengths(tier):
-    return [48, 72, 96, 144] if tier == "quick" else [12, 24, 48, 72, 96, 120, 144, 192, 288]
+    """multiples of 24 plus lengths that are NOT multiples of 12 / 24: a prime square (25), a prime (31, no
+    extension), multiples of only one of the two shift counts (36, 40, 60), 50, a power of two (64), ..."""
+    if tier == "quick":
+        return [25, 31, 36, 40, 48, 50, 64, 72, 96, 144]
+    return [12, 24, 25, 31, 36, 40, 48, 50, 60, 64, 72, 96, 100, 120, 121, 128, 144, 192, 288]
 
 
 def est_root(N, which):
@@ -851,6 +1232,28 @@ def all_units(tier):
             S = 200 if thorough else 40
             ls.append(("ls", "generic", shape, form, 0, S))
             ls.append(("ls", "generic_real", shape, form, 0, S // 2))
+    # H / contexts
+    hx = []
+    for N in ([24, 36, 48] if not thorough else [12, 24, 25, 36, 48, 144]):
+        for which in ("seed", "one"):
+            hx.append(("hist_seq", N, est_root(N, which), 3 if not thorough else 4))
+    for N in ([40, 48] if not thorough else [31, 36, 40, 48, 72]):
+        for kind in EST_KINDS:
+            for norm in (False, True):
+                if kind == "array_comb" and norm:
+                    continue
+                hx.append(("hist_est", N, kind, norm, est_root(N, "seed"), 3))
+    for what in ("scale", "layout"):
+        for N in ([40, 48] if not thorough else [36, 40, 48, 50, 96]):
+            for kind in EST_KINDS:
+                for norm in (False, True):
+                    if kind == "array_comb" and norm:
+                        continue
+                    hx.append(("est_ctx", what, N, kind, norm, est_root(N, "seed")))
+    for shape in LS_SHAPES:
+        for form in ("2d", "3d_shared_pilots", "3d_per_realization"):
+            hx.append(("ls_ctx", shape, form, 60 if thorough else 12))
+    ls = ls + hx
     # simplest first inside every kind (the first stored counterexample of a signature is then a small one);
     # cost-sorted lists also balance under round-robin sharding
     es.sort(key=lambda u: u[1])
@@ -881,7 +1284,7 @@ def run_unit(chk, unit, tools, cache):
         p = unit[1]
         des = set(designated_roots(p))
         for u in range(1, p):
-            if chk.tier != "thorough" and p > 500 and u % 8 != 3 and u not in des:
+            if chk.tier != "thorough" and p > 300 and u % 16 != 3 and u not in des:
                 continue
             case = {"part": "R", "nzc": p, "root": u, "direct": u in des}
             with chk.guard(("zc_root",), case):
@@ -923,6 +1326,14 @@ def run_unit(chk, unit, tools, cache):
         est_unit(chk, unit, cache)
     elif what == "ls":
         ls_unit(chk, unit)
+    elif what == "ls_ctx":
+        ls_ctx_unit(chk, unit)
+    elif what == "est_ctx":
+        est_ctx_unit(chk, unit, cache)
+    elif what == "hist_est":
+        est_hist_unit(chk, unit, cache)
+    elif what == "hist_seq":
+        seq_hist_unit(chk, unit)
     else:
         raise Broken("unknown unit %r" % (unit,))
 
@@ -965,9 +1376,10 @@ def main(chk: Check):
 
     run_shards(chk, worker)
     if chk.tier != "thorough":
-        chk.assume("quick tier: Z on sizes that are multiples of 12; E on lengths {48,72,96,144} with the seed-chosen root; "
-                   "X on a subset of base lengths; R every root for base lengths <= 500 and every 8th root above; "
-                   "receive forms 1-D and 1, 2, 4 antennas; L small-entry pilots with <= 6 entries")
+        chk.assume("quick tier: Z on sizes that are multiples of 12; E on lengths {25,31,36,40,48,50,64,72,96,144} with the "
+                   "seed-chosen root and receive forms 1-D, 1, 2 antennas (3 antennas in the layout contexts); X on a subset "
+                   "of base lengths; R every root for base lengths <= 300 and every 16th root above; L small-entry pilots "
+                   "with <= 6 entries; histories up to 3 events")
     chk.sample({"part": "P", "size": 1013})
     chk.sample({"part": "Z", "size": 144, "root": 1})
     chk.sample({"part": "E", "N": 48, "kind": "srs_comb", "normalize": False, "shift": 3, "root": 7, "L": 6, "K": 5,
@@ -976,10 +1388,14 @@ def main(chk: Check):
     chk.require_outcomes("object_nzc", 50)
     chk.require_outcomes("sequence_kind", 3)
     chk.require_outcomes("extension_branch", 3)
-    chk.require_outcomes("estimator_form", 100)
+    chk.require_outcomes("estimator_form", 80)
     chk.require_outcomes("kept_vs_taps", 4)
     chk.require_outcomes("ls_form", 30)
     chk.require_outcomes("shift_family", 6)
+    chk.require_outcomes("estimator_context", 40)
+    chk.require_outcomes("ls_context", 30)
+    chk.require_outcomes("history_event", 7)
+    chk.require_outcomes("estimator_history_event", 12)
 
 
 def replay(case, chk: Check):
@@ -1018,11 +1434,22 @@ def replay(case, chk: Check):
         c = dict(case)
         c["interf"] = [list(t) for t in case["interf"]]
         variant = kind_info(c["kind"])[5]
-        with chk.guard(("cazac_estimator", variant), c):
+        c.pop("step", None)
+        pre = ("cazac_estimator", variant) + ((c["layout"],) if c.get("layout", "c") != "c" else ())
+        with chk.guard(pre, c):
             eval_est(chk, c, cache)
+    elif part == "HS":
+        c = {k: case[k] for k in ("part", "N", "root", "history")}
+        with chk.guard(("shared_root_history",), c):
+            eval_seq_history(chk, c)
+    elif part == "HE":
+        c = {k: case[k] for k in ("part", "N", "kind", "normalize", "shift", "root", "history", "off_h", "off_i")}
+        with chk.guard(("cazac_estimator", kind_info(c["kind"])[5], "history"), c):
+            eval_est_history(chk, c, cache)
     elif part == "L":
         c = dict(case)
-        with chk.guard(("ls_estimation", c["form"]), c):
+        pre = ("ls_estimation", c["form"]) + ((c["layout"],) if c.get("layout", "c") != "c" else ())
+        with chk.guard(pre, c):
             eval_ls(chk, c)
     else:
         raise Broken("unknown replay case %r" % (case,))
